@@ -7,7 +7,7 @@
    (operation, result, `buffer()` afterwards): [trace_ok data low P B evs].
    Dlt/Chunk.v runs the iterator of Dlt/Iter.v (C01's model) over that reader. *)
 From Coq Require Import List NArith ZArith Bool Lia.
-From AdltV Require Import Base.Res Base.MachInt Dlt.Frame Dlt.Iter Reader.LowMark Reader.LowMarkSpec
+From AdltV Require Import Base.Res Base.MachInt Dlt.Frame Dlt.Iter Dlt.IterProofs Reader.LowMark Reader.LowMarkSpec
   Reader.LowMarkProofs Dlt.Chunk Dlt.ChunkProofs Exec.C04.
 Import ListNotations.
 Open Scope N_scope.
@@ -105,6 +105,56 @@ Theorem C04_reachable_inv data sched capacity low r :
   Reachable data sched capacity low r -> Inv data r /\ r_low r = low /\ nlen (r_buf r) = capacity.
 Proof. exact (reachable_inv data sched capacity low r). Qed.
 
+
+(* ---- position: how many whole messages precede a suffix does not matter *)
+
+(* the iterator's counters are only carried along: started with index / bytes_processed / bytes_skipped advanced
+   by (di, dp, dk) it yields the same messages with indices advanced by di and ends in the same state advanced
+   by (di, dp, dk), leaving the same rest (as long as the u32 index does not overflow) *)
+Theorem C04_counters_do_not_matter di dp dk fuel nfuel st d ms st' rest :
+  drain_fuel fuel nfuel st d = Ok (ms, st', rest) -> i_index st' + di <= u32max ->
+  drain_fuel fuel nfuel (ist_shift di dp dk st) d = Ok (map (msg_shift di) ms, ist_shift di dp dk st', rest).
+Proof. exact (drain_shift di dp dk fuel nfuel st d ms st' rest). Qed.
+
+(* [l] whole messages of framing f in front of an arbitrary suffix s (garbage, markers, truncated frames ...),
+   each accepted where it stands (prefix_ok: C01's acceptance condition): the stream yields those messages and
+   then exactly what the iterator with the framing latched yields on s alone, with index and bytes_processed
+   advanced by the prefix; skipped bytes, latches and the unconsumed rest are those of s alone *)
+Theorem C04_position_independent f l s st fuel nfuel ms st' rest :
+  st_ok f st -> prefix_ok f l s -> (l <> [] \/ own_detected f st = true) ->
+  drain_fuel fuel (S nfuel) (latched f st) s = Ok (ms, st', rest) ->
+  i_index st + N.of_nat (length l) + i_index st' <= u32max ->
+  drain_fuel (length l + fuel) (S nfuel) st (encs f l ++ s) =
+  Ok (expect_from f (i_index st) l ++ map (msg_shift (i_index st + N.of_nat (length l))) ms,
+      ist_shift (i_index st + N.of_nat (length l)) (i_processed st + blen (encs f l)) (i_skipped st) st',
+      rest).
+Proof. exact (position_independent f l s st fuel nfuel ms st' rest). Qed.
+
+(* non-vacuity of C04_position_independent: two messages in front of a suffix made of garbage, a message and
+   a truncated frame *)
+Definition pos_msg (p : bytes) : amsg :=
+  {| a_secs := 5; a_micros := 6; a_secu := (69, 67, 85, 49); a_htyp := 32; a_mcnt := 1;
+     a_ecu := (0, 0, 0, 0); a_sid := (0, 0, 0, 0); a_ts := 0; a_vmm := 0; a_noar := 0;
+     a_apid := (0, 0, 0, 0); a_ctid := (0, 0, 0, 0); a_payload := p |}.
+Definition pos_suffix : bytes :=
+  enc_storage (pos_msg [7]) ++ [1; 2; 3] ++ enc_storage (pos_msg [8; 9]) ++ [68; 76; 84; 1; 0; 0].
+Example C04_position_nonvacuous :
+  let l := [pos_msg [1; 2; 3]; pos_msg []] in
+  st_ok Storage (ist_new 10) /\ prefix_ok Storage l pos_suffix /\ l <> [] /\
+  exists ms st' rest,
+    drain_fuel 40 (S 200) (latched Storage (ist_new 10)) pos_suffix = Ok (ms, st', rest) /\
+    (length ms = 2)%nat /\ i_skipped st' = 3 /\ rest = [68; 76; 84; 1; 0; 0] /\
+    i_index (ist_new 10) + N.of_nat (length l) + i_index st' <= u32max.
+Proof.
+  cbv zeta. split; [reflexivity|]. split.
+  - cbn [prefix_ok]. split; [vm_compute; intuition discriminate|]. split; [right; left; vm_compute; reflexivity|].
+    split; [vm_compute; intuition discriminate|]. split; [right; left; vm_compute; reflexivity|exact I].
+  - split; [discriminate|].
+    destruct (drain_fuel 40 (S 200) (latched Storage (ist_new 10)) pos_suffix) as [[[ms st'] rest]| |] eqn:E;
+      vm_compute in E; try discriminate.
+    exists ms, st', rest. inversion E; subst. split; [reflexivity|]. vm_compute. intuition discriminate.
+Qed.
+
 (* ---- witnesses of the two defects repaired in /repo *)
 
 (* (a) before commit bfc66da: `copy_within(pos..cap, offset)` left buf[0..offset] stale although abs_pos claimed
@@ -174,6 +224,9 @@ Print Assumptions C04_parse_stable.
 Print Assumptions C04_iter_chunk_independent.
 Print Assumptions C04_iter_independent_of_reader_state.
 Print Assumptions C04_reachable_inv.
+Print Assumptions C04_counters_do_not_matter.
+Print Assumptions C04_position_independent.
+Print Assumptions C04_position_nonvacuous.
 Print Assumptions C04_seek_stale_before_fix.
 Print Assumptions C04_chunk_dependence_below_lookahead.
 Print Assumptions C04_nonvacuous.
